@@ -78,6 +78,19 @@ class Machine:
         self.tag = tag
 
 
+class Fuzz:
+    """A coverage-guided campaign (atheris/libFuzzer) run as a sub-process. It can only ADD violations: a finding is
+    written out as a plain JSON case and confirmed through the normal replay path before it is reported."""
+    kind = 'fuzz'
+
+    def __init__(self, name, script, runs, shards=1, tag=None):
+        self.name = name
+        self.script = script        # path relative to /verif
+        self.runs = runs
+        self.shards = shards
+        self.tag = tag
+
+
 class Enumerate:
     kind = 'enum'
 
@@ -323,6 +336,56 @@ def _machine_worker(args):
         return stats, {'case': {'ops': json.loads(canon(cap['ops']))}, 'oracle': v.oracle, 'msg': v.msg}, None
     except Exception as e:
         return stats, None, f'state machine failed: {e!r}\n{traceback.format_exc()}'
+    return stats, None, None
+
+
+def _fuzz_worker(args):
+    modname, phase_index, tier, seed, shrink, excluded = args
+    import shutil
+    import subprocess
+    import tempfile
+    mod = load(modname)
+    ph = mod.phases(tier)[phase_index]
+    stats = Stats()
+    work = tempfile.mkdtemp(prefix='verif-fuzz-')
+    try:
+        os.makedirs(os.path.join(work, 'corpus'))
+        env = dict(os.environ)
+        cmd = [sys.executable, '-B', os.path.join(VERIF, ph.script), work, f'-runs={ph.runs}', f'-seed={seed % 2**31 or 1}',
+               os.path.join(work, 'corpus')]
+        out = subprocess.run(cmd, env=env, cwd=work, stdout=subprocess.PIPE, stderr=subprocess.STDOUT, text=True,
+                             timeout=7200)
+        fpath = os.path.join(work, 'finding.json')
+        if os.path.exists(fpath):
+            with open(fpath) as f:
+                fd = json.load(f)
+            ctx = {'tier': tier, 'phase': ph.tag or ph.name, 'excluded': set(excluded)}
+            try:
+                execute(mod, fd['case'], ctx, 60.0)
+            except Violation as v:
+                return stats, {'case': fd['case'], 'oracle': v.oracle, 'msg': v.msg}, None
+            except (Inconclusive, HarnessError):
+                pass
+            return stats, None, 'fuzz target reported a finding that the replay path does not confirm: ' + str(fd)[:300]
+        if out.returncode != 0:
+            if 'No module named' in out.stdout and 'atheris' in out.stdout:
+                stats.classes['fuzz-skipped-atheris-missing'] = 1
+                return stats, None, None
+            return stats, None, f'fuzz target failed rc={out.returncode}: {out.stdout[-600:]}'
+        spath = os.path.join(work, 'stats.json')
+        if os.path.exists(spath):
+            with open(spath) as f:
+                st = json.load(f)
+            stats.evaluations = st['execs']
+            stats.counters['fuzz_execs'] = st['execs']
+            stats.counters['fuzz_ops'] = st.get('ops', 0)
+            stats.counters['fuzz_nontrivial_not_deduplicated'] = st.get('nontrivial', 0)
+            for c in st.get('samples', []):
+                stats.nontrivial.add(sha(c))
+                if len(stats.samples) < 3:
+                    stats.samples.append(c)
+    finally:
+        shutil.rmtree(work, ignore_errors=True)
     return stats, None, None
 
 
@@ -605,10 +668,10 @@ def run_property(modname, tier, seed, replay=None, workers=None):
         while True:
             rounds += 1
             tp = time.time()
-            if ph.kind in ('search', 'machine'):
+            if ph.kind in ('search', 'machine', 'fuzz'):
                 jobs = [(modname, pi, tier, seed * 1000 + s + 100 * pi, tier == 'thorough', sorted(excluded))
                         for s in range(ph.shards)]
-                worker = _search_worker if ph.kind == 'search' else _machine_worker
+                worker = {'search': _search_worker, 'machine': _machine_worker, 'fuzz': _fuzz_worker}[ph.kind]
             else:
                 jobs = [(modname, pi, tier, c, sorted(excluded)) for c in range(ph.chunks)]
                 worker = _enum_worker
@@ -632,6 +695,10 @@ def run_property(modname, tier, seed, replay=None, workers=None):
             if ph.kind == 'enum':
                 info['exhaustive'] = fail is None
                 info['space'] = ph.describe
+            elif ph.kind == 'fuzz':
+                info['shards'] = ph.shards
+                info['libfuzzer_runs_per_shard'] = ph.runs
+                info['note'] = 'distinct_nontrivial of this phase counts only the sampled cases (the target does not de-duplicate)'
             else:
                 info['shards'] = ph.shards
                 info['examples_per_shard'] = ph.examples
